@@ -17,6 +17,7 @@ import (
 	"encoding"
 	"encoding/binary"
 	"fmt"
+	"io"
 	"net"
 	"reflect"
 )
@@ -65,7 +66,8 @@ func (c *conn2) receive() (interface{}, error) {
 
 	buff = make([]byte, 2)
 
-	if _, err := c.Conn.Read(buff); err != nil {
+	// a Read returns what one transport message carried, which need not be the whole field
+	if _, err := io.ReadFull(c.Conn, buff); err != nil {
 		return nil, err
 	}
 
@@ -73,7 +75,7 @@ func (c *conn2) receive() (interface{}, error) {
 
 	buff = make([]byte, size)
 
-	if _, err := c.Conn.Read(buff); err != nil {
+	if _, err := io.ReadFull(c.Conn, buff); err != nil {
 		return nil, err
 	}
 
